@@ -118,14 +118,14 @@ def check_expm(case, rec):
 
 @st.composite
 def eigh_case(draw, nmax):
-    d = draw(krylov_desc(nmax=nmax, kinds=('herm_real', 'herm_complex'), extra_m=6))
+    d = draw(krylov_desc(nmax=nmax, kinds=('herm_real', 'herm_complex', 'herm_real', 'herm_complex', 'herm_kernel'), extra_m=6))
     d['numeig'] = draw(st.sampled_from([1, 1, 2, 3]))
     return d
 
 
 @st.composite
 def expm_case(draw, nmax):
-    d = draw(krylov_desc(nmax=nmax, kinds=('herm_real', 'herm_complex', 'herm_complex', 'general', 'general_jordan'), extra_m=6))
+    d = draw(krylov_desc(nmax=nmax, kinds=('herm_real', 'herm_complex', 'herm_complex', 'general', 'general_jordan', 'general_shift', 'herm_kernel'), extra_m=6))
     d['dtkind'] = draw(st.sampled_from(['imag', 'imag', 'real', 'complex']))
     d['dtx'] = draw(st.sampled_from([0.01, 0.1, 0.3, 0.6, 1.0]))
     d['dtphase'] = draw(st.floats(0, 1))
